@@ -3,8 +3,8 @@
 From Dashu Require Import Base.Prelude Base.Words Int.RingSpec Int.RingAdd Int.RingAddProofs Int.RingMul Int.RingMulProofs
   Int.RingKaraProofs Int.RingDispatchProofs Int.RingSqrProofs Int.RingOps Int.RingOpsProofs Int.RingOpsMulProofs
   Int.RingToomW Int.RingTop Int.DivWordModel Int.DivWordProofs Int.DivWordInst Int.DivWordInstProofs
-  Int.RingMulW Int.RingMulWProofs Int.RingOpsW Int.RingOpsWProofs.
-From DashuGen Require Import Params.
+  Int.RingMulW Int.RingMulWProofs Int.RingOpsW Int.RingOpsWProofs Int.RingScratch Int.RingScratchProofs Int.RingPowW Int.RingPowWProofs.
+From DashuGen Require Import Params MulMemory.
 Open Scope Z_scope.
 
 Section TopW.
@@ -48,6 +48,26 @@ Theorem ibig_cubic_w_exact s x : tok w x ->
   exists r, ibig_cubic_asis_w w div2by1 TS TK CH SQ s x = Ok r /\ srv r = cubic_spec (signed s (rv x)) /\ twf w (snd r).
 Proof. apply (ibig_cubic_asis_w_correct w w_ge div2by1 div2by1_ok TS TK CH SQ A1 A2 A3). Qed.
 
+(** pow.rs with its storage bookkeeping; the scratch facts are those of Int/RingScratchProofs.v *)
+Let Sc : forall n, 0 <= n ->
+  0 <= sqr_need (Z.of_nat TS) (Z.of_nat TK) (Z.of_nat SQ) n <= sqr_memory_words n := sqr_scratch_sufficient.
+
+Theorem pow_word_base_w_exact base e : 0 <= base < B w -> 3 <= e ->
+  exists r, pow_word_base_w w div2by1 TS TK SQ base e = Ok r /\ rv r = base ^ e /\ twf w r.
+Proof. apply (pow_word_base_w_correct w w_ge div2by1 div2by1_ok TS TK CH SQ A1 A2 A3 Sc sqr_memory_words_mono). Qed.
+
+Theorem pow_dword_base_w_exact base e : B w <= base < B w * B w -> 3 <= e ->
+  exists r, pow_dword_base_w w div2by1 TS TK SQ base e = Ok r /\ rv r = base ^ e /\ twf w r.
+Proof. apply (pow_dword_base_w_correct w w_ge div2by1 div2by1_ok TS TK CH SQ A1 A2 A3 Sc sqr_memory_words_mono). Qed.
+
+Theorem ubig_pow_w_exact cap x e : twf w x -> 0 <= e ->
+  exists r, ubig_pow_w w div2by1 TS TK CH SQ cap x e = Ok r /\ rv r = pow_spec (rv x) e /\ twf w r.
+Proof. apply (ubig_pow_w_correct w w_ge div2by1 div2by1_ok TS TK CH SQ A1 A2 A3 Sc sqr_memory_words_mono). Qed.
+
+Theorem ibig_pow_w_exact cap s x e : twf w x -> 0 <= e ->
+  exists r, ibig_pow_w w div2by1 TS TK CH SQ cap s x e = Ok r /\ srv r = pow_spec (signed s (rv x)) e /\ twf w (snd r).
+Proof. apply (ibig_pow_w_correct w w_ge div2by1 div2by1_ok TS TK CH SQ A1 A2 A3 Sc sqr_memory_words_mono). Qed.
+
 End TopW.
 
 (** non-vacuity: the contract of [div2by1] is met by exact division (the instance the oracle runs), and the
@@ -64,3 +84,12 @@ Proof. vm_compute. repeat split; try reflexivity. eexists _, _. reflexivity. Qed
 Example multiply_w_example :
   multiply_w 64 x2by1 src_T_simple src_T_kara src_CHUNK [2 ^ 64 - 1; 5] [2 ^ 64 - 1] = Ok [1; 2 ^ 64 - 7; 5].
 Proof. vm_compute. reflexivity. Qed.
+
+(** non-vacuity (64-bit words): 6^50 through factor-2 removal, the lifted word base 3^40 (q = 1, shortcut), 3^200
+    through the buffer loop (q = 5), a double-word base, a 3-word base *)
+Example pow_w_examples :
+  ubig_pow_w 64 x2by1 src_T_simple src_T_kara src_CHUNK src_SQR true (Small 6) 50 = Ok (typed_of_value 64 (6 ^ 50)) /\
+  ubig_pow_w 64 x2by1 src_T_simple src_T_kara src_CHUNK src_SQR true (Small 3) 200 = Ok (typed_of_value 64 (3 ^ 200)) /\
+  ubig_pow_w 64 x2by1 src_T_simple src_T_kara src_CHUNK src_SQR false (Small (2 ^ 64 + 1)) 7 = Ok (typed_of_value 64 ((2 ^ 64 + 1) ^ 7)) /\
+  ibig_pow_w 64 x2by1 src_T_simple src_T_kara src_CHUNK src_SQR true Negative (Large [4; 0; 1]) 5 = Ok (Negative, typed_of_value 64 ((2 ^ 128 + 4) ^ 5)).
+Proof. vm_compute. repeat split; reflexivity. Qed.
